@@ -23,6 +23,7 @@ EXPLANATION = (
     "uses the operator and operand order its name says over the union of keys. The identity then follows by induction "
     "over write sites; Decimal arithmetic itself is not claimed."
     " C01.3 also: a fill reaches the account as one all-or-nothing update (a second update for the fees could be refused after the first was applied)."
+    " The delta applied is exactly fill + fees (only pruned between its computation and the update)."
 )
 TRUSTED = ["CPython ast parser", "mypy callee/receiver resolution", "sa.cfg statement CFG", "sa.summaries"]
 
